@@ -1553,6 +1553,16 @@ func (r *Raft) appendEntries(rpc RPC, a *AppendEntriesRequest) {
 					r.logger.Error("failed to clear log suffix", "error", err)
 					return
 				}
+				// The suffix is gone, so the last log is now the entry
+				// before it. Without this a failed append below leaves
+				// the cached last log pointing at entries that no
+				// longer exist and every later AppendEntries fails in
+				// the GetLog above.
+				if i > 0 {
+					r.setLastLog(a.Entries[i-1].Index, a.Entries[i-1].Term)
+				} else {
+					r.setLastLog(a.PrevLogEntry, a.PrevLogTerm)
+				}
 				if entry.Index <= r.configurations.latestIndex {
 					r.setLatestConfiguration(r.configurations.committed, r.configurations.committedIndex)
 				}
@@ -1570,8 +1580,6 @@ func (r *Raft) appendEntries(rpc RPC, a *AppendEntriesRequest) {
 			// Append the new entries
 			if err := r.logs.StoreLogs(newEntries); err != nil {
 				r.logger.Error("failed to append to logs", "error", err)
-				// TODO: leaving r.getLastLog() in the wrong
-				// state if there was a truncation above
 				return
 			}
 
